@@ -197,15 +197,19 @@ def sizing(chk):
                 if len(cs) > 600:
                     # the extreme corners and a sample carry the maximum
                     cs = [c for c in cs if any(c[k] == sz[k] - 1 for k in range(n))][:600]
-                ops = [f'new 0 ' + ' '.join(map(str, sz)) + f' {ncell} ' + ' '.join(['0'] * ncell), f'conv {t}/array.1.f32 1 0', f'on {t}/array.1.f32 cfg 1',
-                       f'on {t}/identity.1.u64 new 0 ' + ' '.join(map(str, sz))]
-                ops += [f'on {t}/identity.1.u64 at 0 ' + ' '.join(map(str, c)) for c in cs]
+                ops = [f'new 0 ' + ' '.join(map(str, sz)) + f' {ncell} ' + ' '.join(['0'] * ncell), f'conv {t}/array.1.f32 1 0', f'on {t}/array.1.f32 cfg 1']
                 lines.append(f's{cid} {src} ' + ' | '.join(ops))
+                # the curve positions, through the same layer over the identity backend (its own translation unit)
+                pops = [f'new 0 ' + ' '.join(map(str, sz))] + [f'at 0 ' + ' '.join(map(str, c)) for c in cs]
+                lines.append(f'p{cid} {t}/identity.1.u64 ' + ' | '.join(pops))
                 meta[f's{cid}'] = (t, sz, len(cs))
                 cid += 1
     model, impl = runner.run(lines)
     for l in lines:
         id_ = l.split(' ', 1)[0]
+        if not id_.startswith('s'):
+            continue
+        pid_ = 'p' + id_[1:]
         t, sz, ncs = meta[id_]
         chk.count_case(('sizing', t, tuple(sz)), max(sz) > 1)
         p2 = 1
@@ -214,23 +218,26 @@ def sizing(chk):
         want_len = p2 ** len(sz)
         for cfg in impl:
             a = impl[cfg].get(id_, 'MISSING')
-            if a == 'SKIPPED':
+            pa = impl[cfg].get(pid_, 'MISSING')
+            if a == 'SKIPPED' or pa == 'SKIPPED':
                 continue
             ap = a.split(' | ')
-            if len(ap) != 4 + ncs or not ap[2].startswith('C '):
-                chk.violation('curve storage sizing: conversion fails: ' + t.split('.')[0], f'{t} extents {sz} in build {cfg}: {[x for x in ap if not x.startswith(("OK", "V", "C"))][:1] or a[:200]}', {'target': t, 'extents': sz, 'impl': a[:1000], 'build': cfg})
+            pp = pa.split(' | ')
+            if len(ap) != 3 or not ap[2].startswith('C ') or len(pp) != 1 + ncs:
+                bad = [x for x in ap + pp if not x.startswith(('OK', 'V', 'C'))][:1]
+                chk.violation('curve storage sizing: conversion or lookup fails: ' + t.split('.')[0], f'{t} extents {sz} in build {cfg}: {bad or (a[:150] + " / " + pa[:150])}', {'target': t, 'extents': sz, 'impl': a[:1000], 'build': cfg})
                 continue
             length = int(ap[2].split(';')[-1].split()[0])
-            pos = [int(x.split()[1]) for x in ap[4:] if x.startswith('V ')]
+            pos = [int(x.split()[1]) for x in pp[1:] if x.startswith('V ')]
             mx = max(pos) if pos else 0
             if length <= mx:
                 chk.violation('curve storage has no more cells than the largest curve position: ' + t.split('.')[0], f'{t} extents {sz} ({cfg}): the converted field owns {length} cells, an in-range coordinate maps to position {mx}',
                               {'target': t, 'extents': sz, 'cells': length, 'largest_position': mx, 'build': cfg})
             elif length != want_len:
                 chk.obligation_broken(f'curve storage length differs from ipow(round_pow2(max extent), N): {t} extents {sz} ({cfg})', f'{length} cells, closed form {want_len}')
-            m = model.get(id_)
-            if m is not None and m != a:
-                mp = m.split(' | ')
-                q = next((q for q in range(min(len(mp), len(ap))) if mp[q] != ap[q]), 0)
-                chk.obligation_broken(f'correspondence of curve positions / sizing with the model: {t} extents {sz} ({cfg})', f'impl {ap[q][:120]} model {mp[q][:120]}')
+            for q, (x, mdl) in enumerate(((a, model.get(id_)), (pa, model.get(pid_)))):
+                if mdl is not None and mdl != x:
+                    xp, mp = x.split(' | '), mdl.split(' | ')
+                    j = next((j for j in range(min(len(mp), len(xp))) if mp[j] != xp[j]), 0)
+                    chk.obligation_broken(f'correspondence of curve {"positions" if q else "sizing"} with the model: {t} extents {sz} ({cfg})', f'impl {xp[j][:120]} model {mp[j][:120]}')
     chk.cov['sizing_cases'] = len(lines)
